@@ -139,6 +139,9 @@ def Seqr.pop (s : Seqr) (seq : Int) : Option (Seqr × Slot × Bool) :=
 
 def Seqr.size (s : Seqr) : Int := s.slots.length
 
+/-- `Reset`: `offsetter.Reset(); container.Reset(); bytes = 0`. -/
+def Seqr.reset (s : Seqr) : Seqr := { s with slots := [], bytes := 0, tree := s.tree.reset }
+
 /-! ## byte_buffer.go (the three areas; `wi = len(data)`, capacity is not modelled) -/
 
 structure Buf where
@@ -248,6 +251,10 @@ def step (s : St) : Op → St × Obs
               .off o.2.Index o.2.Length (s.buf.savedSlot o.2) d.1.saved)
   | .reset =>
       if s.live = [] then ({ s with tree := s.tree.reset }, .unit) else (s, .skip)
+  | .resetAll =>
+      match s.buf.discardAll with
+      | none => (s, .panic)
+      | some b => ({ s with buf := b, sq := s.sq.reset }, .unit)
 
 /-- The model's trace for a script. -/
 def run : St → List Op → List (Op × Obs)
